@@ -29,6 +29,9 @@
 static int fn = -1;
 static int opt_multifam;        /* read AdditionalFamilyName_t under Family_t (cg_nmultifam refuses that position today) */
 static int opt_pz_multifam;     /* ... under ParticleZone_t (cg_nmultifam refuses that position today) */
+static int opt_slab_index;      /* the index output of EVERY slab call must designate the array (not only of the call that creates it) */
+static int slab_first;
+static void slab_index(int k, int o, int *out) { if (k == 0) { slab_first = o; *out = o; } else if (o != slab_first) *out = o; }
 static int opt_pz_int;          /* IntegralData_t under ParticleZone_t (cg_nintegrals refuses that position today) */
 static char *W[4096];
 static int NW;
@@ -234,9 +237,12 @@ static int do_call(void)
     else if (!strcmp(f, "coord") && SL.on) {
         cgsize_t a1[12], a2[12], m1[12], m2[12]; size_t off;
         rc = 0;
-        for (int k = 0; !rc && slab(k, A[0].nd, A[0].dims, a1, a2, m1, m2, &off); k++)
-            rc = SL.partial ? cg_coord_partial_write(fn, B, Z, dtype_of(A[0].dt), name, a1, a2, A[0].data + off * dt_bytes(dtype_of(A[0].dt)), &out)
-                            : cg_coord_general_write(fn, B, Z, name, dtype_of(A[0].dt), a1, a2, dtype_of(A[0].dt), A[0].nd, A[0].dims, m1, m2, A[0].data, &out);
+        for (int k = 0; !rc && slab(k, A[0].nd, A[0].dims, a1, a2, m1, m2, &off); k++) {
+            int o = -99, *po = opt_slab_index ? &o : &out;      /* every slab call gets its own output variable */
+            rc = SL.partial ? cg_coord_partial_write(fn, B, Z, dtype_of(A[0].dt), name, a1, a2, A[0].data + off * dt_bytes(dtype_of(A[0].dt)), po)
+                            : cg_coord_general_write(fn, B, Z, name, dtype_of(A[0].dt), a1, a2, dtype_of(A[0].dt), A[0].nd, A[0].dims, m1, m2, A[0].data, po);
+            if (opt_slab_index && !rc) slab_index(k, o, &out);
+        }
     }
     else if (!strcmp(f, "coord")) rc = cg_coord_write(fn, B, Z, dtype_of(A[0].dt), name, A[0].data, &out);
     else if (!strcmp(f, "section") && SL.on) {
@@ -260,9 +266,12 @@ static int do_call(void)
     else if (!strcmp(f, "field") && SL.on) {
         cgsize_t a1[12], a2[12], m1[12], m2[12]; size_t off;
         rc = 0;
-        for (int k = 0; !rc && slab(k, A[0].nd, A[0].dims, a1, a2, m1, m2, &off); k++)
-            rc = SL.partial ? cg_field_partial_write(fn, B, Z, S, dtype_of(A[0].dt), name, a1, a2, A[0].data + off * dt_bytes(dtype_of(A[0].dt)), &out)
-                            : cg_field_general_write(fn, B, Z, S, name, dtype_of(A[0].dt), a1, a2, dtype_of(A[0].dt), A[0].nd, A[0].dims, m1, m2, A[0].data, &out);
+        for (int k = 0; !rc && slab(k, A[0].nd, A[0].dims, a1, a2, m1, m2, &off); k++) {
+            int o = -99, *po = opt_slab_index ? &o : &out;      /* every slab call gets its own output variable */
+            rc = SL.partial ? cg_field_partial_write(fn, B, Z, S, dtype_of(A[0].dt), name, a1, a2, A[0].data + off * dt_bytes(dtype_of(A[0].dt)), po)
+                            : cg_field_general_write(fn, B, Z, S, name, dtype_of(A[0].dt), a1, a2, dtype_of(A[0].dt), A[0].nd, A[0].dims, m1, m2, A[0].data, po);
+            if (opt_slab_index && !rc) slab_index(k, o, &out);
+        }
     }
     else if (!strcmp(f, "field")) rc = cg_field_write(fn, B, Z, S, dtype_of(A[0].dt), name, A[0].data, &out);
     else if (!strcmp(f, "boco"))
@@ -298,9 +307,12 @@ static int do_call(void)
     else if (!strcmp(f, "particle_coord") && SL.on) {
         cgsize_t a1[12], a2[12], m1[12], m2[12]; size_t off;
         rc = 0;
-        for (int k = 0; !rc && slab(k, A[0].nd, A[0].dims, a1, a2, m1, m2, &off); k++)
-            rc = SL.partial ? cg_particle_coord_partial_write(fn, B, P, dtype_of(A[0].dt), name, a1, a2, A[0].data + off * dt_bytes(dtype_of(A[0].dt)), &out)
-                            : cg_particle_coord_general_write(fn, B, P, name, dtype_of(A[0].dt), a1, a2, dtype_of(A[0].dt), A[0].dims, m1, m2, A[0].data, &out);
+        for (int k = 0; !rc && slab(k, A[0].nd, A[0].dims, a1, a2, m1, m2, &off); k++) {
+            int o = -99, *po = opt_slab_index ? &o : &out;      /* every slab call gets its own output variable */
+            rc = SL.partial ? cg_particle_coord_partial_write(fn, B, P, dtype_of(A[0].dt), name, a1, a2, A[0].data + off * dt_bytes(dtype_of(A[0].dt)), po)
+                            : cg_particle_coord_general_write(fn, B, P, name, dtype_of(A[0].dt), a1, a2, dtype_of(A[0].dt), A[0].dims, m1, m2, A[0].data, po);
+            if (opt_slab_index && !rc) slab_index(k, o, &out);
+        }
     }
     else if (!strcmp(f, "particle_coord")) rc = cg_particle_coord_write(fn, B, P, dtype_of(A[0].dt), name, A[0].data, &out);
     else if (!strcmp(f, "particle_sol")) rc = cg_particle_sol_write(fn, B, P, name, &out);
@@ -309,9 +321,12 @@ static int do_call(void)
     else if (!strcmp(f, "particle_field") && SL.on) {
         cgsize_t a1[12], a2[12], m1[12], m2[12]; size_t off;
         rc = 0;
-        for (int k = 0; !rc && slab(k, A[0].nd, A[0].dims, a1, a2, m1, m2, &off); k++)
-            rc = SL.partial ? cg_particle_field_partial_write(fn, B, P, PS, dtype_of(A[0].dt), name, a1, a2, A[0].data + off * dt_bytes(dtype_of(A[0].dt)), &out)
-                            : cg_particle_field_general_write(fn, B, P, PS, name, dtype_of(A[0].dt), a1, a2, dtype_of(A[0].dt), A[0].dims, m1, m2, A[0].data, &out);
+        for (int k = 0; !rc && slab(k, A[0].nd, A[0].dims, a1, a2, m1, m2, &off); k++) {
+            int o = -99, *po = opt_slab_index ? &o : &out;      /* every slab call gets its own output variable */
+            rc = SL.partial ? cg_particle_field_partial_write(fn, B, P, PS, dtype_of(A[0].dt), name, a1, a2, A[0].data + off * dt_bytes(dtype_of(A[0].dt)), po)
+                            : cg_particle_field_general_write(fn, B, P, PS, name, dtype_of(A[0].dt), a1, a2, dtype_of(A[0].dt), A[0].dims, m1, m2, A[0].data, po);
+            if (opt_slab_index && !rc) slab_index(k, o, &out);
+        }
     }
     else if (!strcmp(f, "particle_field")) rc = cg_particle_field_write(fn, B, P, PS, dtype_of(A[0].dt), name, A[0].data, &out);
     else if (!strcmp(f, "piter")) { rc = cg_piter_write(fn, B, P, name); has_index = 0; }
@@ -1438,6 +1453,7 @@ int main(void)
             if (!strcmp(W[1], "multifam")) opt_multifam = atoi(W[2]);
             else if (!strcmp(W[1], "pzone_multifam")) opt_pz_multifam = atoi(W[2]);
             else if (!strcmp(W[1], "pzone_integrals")) opt_pz_int = atoi(W[2]);
+            else if (!strcmp(W[1], "slab_index")) opt_slab_index = atoi(W[2]);
             printf("c 0\n");
         }
         else if (!strcmp(c, "open")) {
